@@ -27,7 +27,8 @@ GLOBALS_EXTRA = ("Interleave.v",)
 # srtp_estimate_index changes; only the two equivalence files import it.  They are compiled in a small build of their own
 # (build_kernels) on top of the main build's .vo files.
 KERNEL_CONE = ("KernelGen.v", "KernelGenProofs.v", "KernelGenProofs2.v")
-SIDE_CONES = GLOBALS_CONE + KERNEL_CONE
+KERNEL_SEARCH = ("KernelSearch.v",)          # compiled on demand by tools/kernel_search.sh (needs no proof file)
+SIDE_CONES = GLOBALS_CONE + KERNEL_CONE + KERNEL_SEARCH
 
 
 def sh(cmd, cwd=None, timeout=None, env=None, inp=None):
@@ -276,6 +277,27 @@ def build_kernels(cdir, qdir):
         open(os.path.join(kdir, "DONE"), "w").write(time.ctime())
         prune("k-", 4)
     return kdir, status
+
+
+def kernel_search(cdir, qdir, kdir):
+    """tools/kernel_search.sh: the regenerated kernels against the hand-written models on boundary-rich grids inside the
+    hypotheses of the equivalence theorems.  Returns (list of dicts name/fail/input/gen/model, tool message)."""
+    if not kdir:
+        return [], "no kernel build"
+    outp = os.path.join(kdir, "search.txt")
+    if not os.path.exists(outp + ".done"):
+        env = dict(os.environ, KERNEL_SEARCH_V=os.path.join(VERIF, "coq", "KernelSearch.v"))
+        r = sh(["bash", os.path.join(VERIF, "tools/kernel_search.sh"), REPO, os.path.join(cdir, "cb"), os.path.join(qdir, "coq"), outp], timeout=1500, env=env)
+        open(outp + ".done", "w").write(str(r.returncode) + "\n" + (r.stderr or "")[-500:])
+    rc = open(outp + ".done").read().split("\n")[0]
+    res = []
+    for ln in open(outp):
+        f = ln.rstrip("\n").split("\t")
+        if len(f) >= 7 and f[1].startswith("fail="):
+            res.append({"name": f[0], "fail": int(f[1][5:]), "grid": f[2][5:], "inhyp": f[3][6:], "input": f[4][6:], "gen": f[5][4:], "model": f[6][6:]})
+        elif len(f) >= 2 and f[1] in ("UNTRANSLATED",) or f[0] == "TOOL-FAILURE":
+            res.append({"name": f[0], "fail": -1, "note": "\t".join(f[1:])[:200]})
+    return res, ("" if rc == "0" else "kernel_search.sh exit " + rc)
 
 
 def build_globals(cdir):
